@@ -49,6 +49,9 @@ MutsOf(kind) ==
                 : i \in TagRows}
     [] kind = "header" ->
          {M("flip", byte, bit, <<>>) : byte \in 0..(FixedHeaderLen - 1), bit \in 0..7}
+         \* the same flips on a valid file of a *lower* minor version (such a file is accepted, so it is
+         \* a valid file too: every check must still be made on it)
+         \cup {M("flip0", byte, bit, <<>>) : byte \in (0..(FixedHeaderLen - 1)) \ {10, 11}, bit \in 0..7}
          \cup {M("revcookie", 0, 0, <<>>)}
          \cup {M("minor", 10, 2, NE(x, 2)) : x \in {0, 1, 2, 3, 255, 256, 257, 32767, 32768, 65535}}
     [] kind = "rfail" -> {NoMut}
@@ -59,6 +62,7 @@ Apply(m, bs) ==
     [] m.k = "tag" -> Splice(bs, m.a, m.c)
     [] m.k = "minor" -> Splice(bs, m.a, m.c)
     [] m.k = "flip" -> [bs EXCEPT ![m.a + 1] = FlipBit(bs[m.a + 1], m.b)]
+    [] m.k = "flip0" -> LET low == Splice(bs, 10, NE(0, 2)) IN [low EXCEPT ![m.a + 1] = FlipBit(low[m.a + 1], m.b)]
     [] m.k = "revcookie" -> Splice(bs, 0, Rev(SubSeq(bs, 1, 8)))
     [] OTHER -> bs
 \* the address residue of the buffer in ε-copy mode
@@ -132,7 +136,7 @@ TagRule ==
 
 \* C10: the specific error, carrying the offending value; a lower minor version is accepted
 HeaderRule ==
-  (Done /\ mut.k \in {"flip", "revcookie", "minor"}) =>
+  (Done /\ mut.k \in {"flip", "flip0", "revcookie", "minor"}) =>
     LET both(st) == FullSt = st /\ EpsSt = st
         hb == SubSeq(input, 1, FixedHeaderLen)
     IN CASE mut.k = "revcookie" -> both("EndiannessError")
@@ -140,7 +144,7 @@ HeaderRule ==
               IF NEVal(mut.c) > VersionMinor
               THEN both("MinorVersionMismatch") /\ rdetail = <<NEVal(mut.c)>> /\ fullRes.detail = <<NEVal(mut.c)>>
               ELSE both("ok") /\ vals = <<case.v>> /\ fullRes.val = <<case.v>>
-         [] mut.k = "flip" ->
+         [] mut.k \in {"flip", "flip0"} ->
               CASE mut.a < 8 -> both("MagicCookieError") /\ rdetail = SubSeq(hb, 1, 8) /\ fullRes.detail = SubSeq(hb, 1, 8)
                 [] mut.a \in {8, 9} -> both("MajorVersionMismatch") /\ rdetail = <<NEVal(SubSeq(hb, 9, 10))>>
                 [] mut.a \in {10, 11} ->
@@ -150,7 +154,7 @@ HeaderRule ==
                 [] mut.a = 12 -> both("UsizeSizeMismatch") /\ rdetail = <<hb[13]>>
                 [] mut.a \in 13..20 -> both("WrongTypeHash") /\ rdetail = SubSeq(hb, 14, 21)
                 [] mut.a \in 21..28 -> both("WrongAlignHash") /\ rdetail = SubSeq(hb, 22, 29)
-NeverPanicOnHeader == (mut.k \in {"flip", "revcookie", "minor"}) => (rstatus # "panic" /\ fullRes.st # "panic")
+NeverPanicOnHeader == (mut.k \in {"flip", "flip0", "revcookie", "minor"}) => (rstatus # "panic" /\ fullRes.st # "panic")
 
 \* C14: a failing reader yields a read error, never a value, never a panic
 ReaderFailRule ==
